@@ -17,6 +17,7 @@ from octave_mcp.core.gbnf_compiler import GBNFCompiler
 from octave_mcp.core.lexer import LexerError
 from octave_mcp.core.parser import ParserError, parse
 from octave_mcp.core.schema_extractor import extract_schema_from_document
+from octave_mcp.core.validator import Validator
 
 from .. import schemalab as sl
 from ..explore import Res
@@ -47,12 +48,17 @@ DECIDERS = {
              "ENUM[12345678901234567890,12345678901234567891]", "ENUM[0,1]", "ENUM[true,false]",
              'ENUM["\U0001F680","\U0001F422"]', 'ENUM["\U0001D518x",ok]', 'ENUM["\u2713","\u00e9\u0301"]',
              "ENUM[3.14159265,2.718281828]", "ENUM[1234567.5,1234567.25]", "ENUM[yes,no,null]",
-             "ENUM[100.00%,05%,1.25%]", "ENUM[01,02,10]", "ENUM[007,08]"],
+             "ENUM[100.00%,05%,1.25%]", "ENUM[01,02,10]", "ENUM[007,08]",
+             # whole-number floats next to members their integer spelling would prefix; members that prefix each other
+             "ENUM[1.0,1.5,2.0]", "ENUM[1.0,10,100]", "ENUM[2.0,20.5,2]", "ENUM[ACT,ACTIVE,DONE]", "ENUM[1,10,11]", "ENUM[A,A]", "ENUM[-1.0,-1.5]", "ENUM[0.0,0.5,0]"],
     "BOOLEAN": ["TYPE[BOOLEAN]"],
     "NUMBER": ["TYPE[NUMBER]"],
     "DATE": ["DATE"],
     "ISO8601": ["ISO8601"],
 }
+# chains whose printed form, value text or Python repr coincide although the values differ (bool vs "True", null vs "None", 5 vs "5", 1 vs 1.0 vs true)
+LOOKALIKE = ["CONST[true]", 'CONST["True"]', 'CONST["true"]', "CONST[false]", 'CONST["False"]', "CONST[null]", 'CONST["None"]', "CONST[5]", 'CONST["5"]', "CONST[1]", "CONST[1.0]",
+             "CONST[X]", 'CONST["X"]', "ENUM[1,2]", 'ENUM["1","2"]', "ENUM[1.0,2.0]", "ENUM[true,false]", 'ENUM["True","False"]', "ENUM[A,B]", "ENUM[B,A]"]
 WRAPS = ["{c}", "REQ∧{c}", "OPT∧{c}", "{c}∧REQ"]
 _CFG = {"max_rep": 2, "digits": "0129", "iso_digits": "01", "budget": 150_000}
 
@@ -65,9 +71,14 @@ def to_python(v):
     return v
 
 
-def derivations(kind: str, chain_text: str):
-    fd = sl.schema_text("PRG", [("F", '"x"', chain_text)])
+_SD = {}
+
+
+def derivations(kind: str, chain_text: str, sibling: str | None = None):
+    """sibling: the chain of a field G compiled BEFORE F in the same schema (one compiler instance, one pass)"""
+    fd = sl.schema_text("PRG", ([("G", '"x"', sibling)] if sibling else []) + [("F", '"x"', chain_text)])
     sd = extract_schema_from_document(parse(fd))
+    _SD["sd"] = sd
     g = GBNFCompiler().compile_schema(sd, include_envelope=False)
     rules, problems = gbnf.check(g)
     if "f" not in rules:
@@ -109,14 +120,26 @@ def judge(kind, chain_text, chain, line):
     r = chain.evaluate(v, "PRG.F")
     if not r.valid:
         return f"{kind}:chain-rejects:{type(v).__name__}", f"read {v!r}; {[e.code for e in r.errors]}"
+    # "the validator accepts": the same line as the only child of a PRG block, through the real Validator with the schema the
+    # grammar was compiled from (this is the route octave_validate / octave_write take)
+    sd = _SD.get("sd")
+    if sd is not None:
+        try:
+            bdoc = parse("PRG:\n  " + line + "\n")
+            errs = [e for e in Validator().validate(bdoc, section_schemas={"PRG": sd}) if "F" in str(getattr(e, "field_path", "") or getattr(e, "field", "") or e)]
+        except (LexerError, ParserError):
+            errs = []
+        if errs:
+            return f"{kind}:validator-rejects:{type(v).__name__}", f"read {v!r}; {[getattr(e, 'code', '?') for e in errs]} {str(errs[0])[:120]}"
     return None, None
 
 
 def check_chain(case) -> Res:
     kind, chain_text = case[0], case[1]
+    sibling = case[2] if len(case) == 3 else None
     part, parts = (case[2], case[3]) if len(case) == 4 else (0, 1)      # big derivation sets are judged in `parts` slices (one case each)
     chain = ConstraintChain.parse(chain_text)
-    ders, g = derivations(kind, chain_text)
+    ders, g = derivations(kind, chain_text, sibling)
     if ders is not None and parts > 1:
         ders = ders[part::parts]
     if ders is None:
@@ -137,7 +160,7 @@ def check_chain(case) -> Res:
         if desc is None:
             accepted.append((chain_text, line))
         elif desc not in viol:
-            viol[desc] = dict(descriptor=desc, case=dict(chain=chain_text, line=line), observed=obs, expected="read without error and accepted by the field's chain")
+            viol[desc] = dict(descriptor=desc, case=dict(chain=chain_text, line=line, **({"sibling": sibling} if sibling else {})), observed=obs, expected="read without error and accepted by the field's chain")
         else:
             viol[desc]["count"] = viol[desc].get("count", 1) + 1
     return Res("ok" if not viol else "rejects", extra_nontrivial=accepted[:50000], violations=list(viol.values()), transitions=n)
@@ -156,7 +179,11 @@ def run(ctx):
     ctx.coverage["bounds"] = {"number_digits": _CFG["max_rep"], "date_digit_alphabet": _CFG["digits"], "iso_digit_alphabet": _CFG["iso_digits"],
                               "chains": [c[1] for c in cases]}
     st = ctx.explore("derivations", cases, check_chain, chunk=1)
-    ctx.coverage["derived_value_texts"] = st.transitions
+    # two fields in one schema (one compiler instance, one pass): every ordered pair of look-alike CONST/ENUM chains - G is compiled first
+    pair_cases = [("CONST" if c.startswith("CONST") else "ENUM", w.replace("{c}", c), w2.replace("{c}", g)) for c in LOOKALIKE for g in LOOKALIKE if c != g
+                  for w, w2 in (("{c}", "{c}"), ("OPT∧{c}", "OPT∧{c}"), ("OPT∧{c}", "{c}"))]      # no REQ wrap: REQ∧CONST[null] is unsatisfiable by construction
+    st2 = ctx.explore("derivations.two_fields", pair_cases, check_chain, chunk=8)
+    ctx.coverage["derived_value_texts"] = st.transitions + st2.transitions
     sl.cleanup()
 
 
